@@ -546,7 +546,7 @@ func (p *Path) invokeOpaque(ov OpaqueV, method string, args []Value) (Value, boo
 	if h, ok := opaqueMethods[ov.kind+"."+method]; ok {
 		return h(p, ov, args), true
 	}
-	if ov.kind == "logger" || ov.kind == "opaqueinit" {
+	if ov.kind == "logger" || ov.kind == "opaqueinit" || ov.kind == "telemetry" {
 		return p.loggerCall(method, ov), true
 	}
 	p.unsup("method %s on opaque %s", method, ov.kind)
